@@ -3,7 +3,7 @@
    (Model/Electre.v: conc_cell, disc_cell, wor_spec_cell); the theorems are the
    properties of those definitions and of the relations built from them. *)
 From Coq Require Import QArith List Bool Arith.
-From SKC Require Import Base.QBool Base.QList Model.Electre Theory.Electre Theory.Result.
+From SKC Require Import Base.QBool Base.QList Model.Electre Theory.Electre Theory.Result Theory.ElectreInv Theory.Distill.
 Import ListNotations.
 
 Theorem C08_outrank_iff : forall n p q conc disc i j,
@@ -59,6 +59,30 @@ Print Assumptions C08_strong_subset_weak.
 Theorem C08_distillation_defined : forall n s w, exists out, electre2_rank n s w = Some out.
 Proof. exact electre2_rank_defined. Qed.
 Print Assumptions C08_distillation_defined.
+
+(* each distillation (direct; inverse = transposed relations with the ranks reversed) yields one rank per
+   alternative and the ranks are exactly 1..k: every class distilled in a round shares the round's rank, and
+   the alternatives nobody can separate any more share the last one *)
+Theorem C08_distillations_are_well_formed_rankings : forall n s w invert r,
+  ranker n s w invert = Some r ->
+  length r = n /\
+  exists k, (k <= n)%nat /\ (forall i, (i < n)%nat -> (1 <= nth i r 0 <= k)%nat) /\
+            (forall p, (1 <= p <= k)%nat -> exists i, (i < n)%nat /\ nth i r 0%nat = p).
+Proof. exact ranker_well_ranked. Qed.
+Print Assumptions C08_distillations_are_well_formed_rankings.
+
+(* renumbering the alternatives renumbers the distillation: nothing depends on the listing order *)
+Theorem C08_distillation_independent_of_listing_order : forall n sg (ts tw ts' tw' : list (list bool)) invert,
+  Permutation.Permutation (map sg (seq 0 n)) (seq 0 n) ->
+  (forall i j, (i < n)%nat -> (j < n)%nat -> bget ts' i j = bget ts (sg i) (sg j)) ->
+  (forall i j, (i < n)%nat -> (j < n)%nat -> bget tw' i j = bget tw (sg i) (sg j)) ->
+  match ranker n ts tw invert, ranker n ts' tw' invert with
+  | Some r, Some r' => follows n sg r r'
+  | None, None => True
+  | _, _ => False
+  end.
+Proof. intros n sg ts tw ts' tw' invert P. exact (ranker_follows_alternatives n sg P ts tw ts' tw' invert). Qed.
+Print Assumptions C08_distillation_independent_of_listing_order.
 
 Example C08_example :
   let objs := [true; false] in let w := [3#4; 1#4] in
